@@ -164,12 +164,14 @@ Setter(e, accept, okConj) ==
                  [] OTHER -> "C14"
     IN  IF e.err = 1
         THEN C(who, "err.ret.nil", e.ret = "nil") \cup C(who, "err.recv.unchanged", e.post[e.recv] = e.pre[e.recv])
+             \* "rejected" means without effect: also a failure of the setter's own property
+             \cup C(MainProp(e.op), "rejected.input.has.effect", e.post[e.recv] = e.pre[e.recv])
         ELSE C(who, "ok.ret.recv", e.ret = "recv") \cup okConj
 
 \* the byte slice given to a setter is left as it was, spare capacity included (C14: "no setter ever modifies
 \* its input"; C11: "input byte slices ... are left bit-for-bit unchanged")
 InputUnchanged(e) == LET ok == e.post[e.args[1]] = e.pre[e.args[1]]
-                     IN  C("C14", "input.unchanged", ok) \cup C("C11", "input.unchanged", ok)
+                     IN  C("C14", "input.unchanged", ok) \cup C("C11", "input.unchanged", ok) \cup C(MainProp(e.op), "input.unchanged", ok)
 
 OpOk(e) ==
   LET a(i) == e.pre[e.args[i]]
@@ -312,7 +314,7 @@ OpOk(e) ==
          \cup C("C10", "ret.recv", e.ret = "recv") \cup Frame(e, {e.recv})
     [] e.op = "Elem.Swap" ->
          LET cnd == BNFromBytes(e.n)  u == e.args[1] IN
-         C("C10", "swap", IF cnd = BNOne /\ u # e.recv
+         V(e, "C10", "swap", IF cnd = BNOne /\ u # e.recv
                           THEN EV(rpost) = EV(a(1)) /\ EV(e.post[u]) = EV(rpre)
                           ELSE EV(rpost) = EV(rpre) /\ EV(e.post[u]) = EV(a(1)))
     [] e.op = "Elem.Equal" ->
